@@ -472,10 +472,28 @@ func genCase(t *rapid.T) (Case, error) {
 		c.Sub = append(c.Sub, File{Name: p, Content: fmt.Sprintf("package %s\n\nfunc testSub%d() bool {\n\treturn true\n}\n", strings.ToLower(d), g.id())})
 		g.mark("decoy:subdir")
 	}
+	// a file the Go toolchain leaves out of the package on this host, with test functions of its own
+	excluded := false
+	if vgen.Chance(t, "buildexcluded", 20) {
+		name := []string{"zz_windows.go", "aa_arm.go", "mm_tagged.go", "_under.go", ".dot.go"}[vgen.Uniform(t, "exclname", 5)]
+		if !hasFile(c.Files, name) {
+			content := "package " + pkgDirName + "\n"
+			if name == "mm_tagged.go" {
+				content = "//go:build " + []string{"slowtests", "ignore", "windows"}[vgen.Uniform(t, "excltag", 3)] + "\n\n" + content
+			}
+			content += fmt.Sprintf("\nfunc testExcl%d() bool {\n\treturn true\n}\n", g.id())
+			if rapid.Bool().Draw(t, "exclfailing") {
+				content += fmt.Sprintf("\nfunc failing_testExcl%d() bool {\n\treturn false\n}\n", g.id())
+			}
+			c.Files = append(c.Files, File{Name: name, Content: content})
+			g.mark("build-excluded-file")
+			excluded = true
+		}
+	}
 	sort.Slice(c.Files, func(i, j int) bool { return c.Files[i].Name < c.Files[j].Name })
 	// sampled by content (rapid integer draws are biased towards small values)
 	c.OutFile = ev.Hash("out", key(c))%3 == 0
-	c.Compile = ev.Hash(key(c))%uint64(ev.EnvInt("VERIF_C18_COMPILE_1_IN", 40)) == 0
+	c.Compile = ev.Hash(key(c))%uint64(ev.EnvInt("VERIF_C18_COMPILE_1_IN", 40)) == 0 && !excluded
 	for f := range g.feat {
 		c.Feat = append(c.Feat, f)
 	}
